@@ -176,6 +176,22 @@ pub fn decode_reencode(buffer: &[u8], cap: usize) -> Result<(Vec<u8>, usize), &'
     }
 }
 
+/// `Message::deserialize` followed by `Message::serialize` into the caller's
+/// buffer, whatever it contains; returns the number of octets written and
+/// `wire_size()`
+pub fn decode_reencode_into(buffer: &[u8], out: &mut [u8]) -> Result<(usize, usize), &'static str> {
+    match Message::deserialize(buffer) {
+        Ok(m) => {
+            let ws = m.wire_size();
+            match m.serialize(out) {
+                Ok(n) => Ok((n, ws)),
+                Err(e) => Err(err_name(&e)),
+            }
+        }
+        Err(e) => Err(err_name(&e)),
+    }
+}
+
 fn dump_message(m: &Message<'_>) -> String {
     let mut out = Vec::new();
     header(&m.header, &mut out);
